@@ -115,12 +115,12 @@ theorem aligned_length_le : (alignedL T1 T2).length ≤ T1.length + T2.length :=
     · simp only [List.map_append, List.mem_append]; exact Or.inr h)
   simpa using this
 
-/-- **the loop is not cut**: on tree-shaped input the fuel of `renderDiff` covers the whole walk; the items are the
-    levels of the aligned trees one after the other, the root first -/
-theorem diffItems_eq :
-    diffItems T1 T2 = walkItems (kidsL T1 T2) (kidsR T1 T2) (maxDep (alignedL T1 T2) dep + 1) [rootOf T1 T2] := by
+/-- **the loop is not cut**: on tree-shaped input the fuel of `renderDiff` (or any larger one) covers the whole walk;
+    the items are the levels of the aligned trees one after the other, the root first -/
+theorem diffLoop_walk (fuel : Nat) (hf : T1.length + T2.length + 2 ≤ fuel) :
+    diffLoop (kidsL T1 T2) (kidsR T1 T2) fuel [rootOf T1 T2]
+      = walkItems (kidsL T1 T2) (kidsR T1 T2) (maxDep (alignedL T1 T2) dep + 1) [rootOf T1 T2] := by
   have tU := alignedL_treeShaped t1 t2 hc h1 h2
-  unfold diffItems
   apply diffLoop_levels
   · have := (level_rows T1 T2 h1 h2 (maxDep (alignedL T1 T2) dep + 1)).1
     rw [levelRows_beyond tU] at this
@@ -137,6 +137,10 @@ theorem diffItems_eq :
     rw [List.length_map, List.length_map] at this
     have := aligned_length_le t1 t2 hc h1 h2
     omega
+
+theorem diffItems_eq :
+    diffItems T1 T2 = walkItems (kidsL T1 T2) (kidsR T1 T2) (maxDep (alignedL T1 T2) dep + 1) [rootOf T1 T2] :=
+  diffLoop_walk t1 t2 hc h1 h2 _ (Nat.le_refl _)
 
 /-- **every node of either tree is laid out exactly once**: the bars after the root bar carry pairwise different node
     ids, and these are exactly the node ids of the two trees -/
@@ -323,6 +327,83 @@ theorem missingNames_nodup {t1 t2 : NameTab} (h1 : (t1.map (·.1)).Nodup) (h2 : 
   have := (List.mem_filter.mp hq).2
   simp only [NameTab.has, Bool.not_eq_true', List.any_eq_false, beq_iff_eq] at this
   exact this p hp e
+
+
+theorem has_iff_mem {nt : NameTab} {f : Nat} : NameTab.has nt f = true ↔ ∃ s, (f, s) ∈ nt := by
+  simp only [NameTab.has, List.any_eq_true, beq_iff_eq]
+  constructor
+  · rintro ⟨p, hp, rfl⟩; exact ⟨p.2, hp⟩
+  · rintro ⟨s, hs⟩; exact ⟨(f, s), hs, rfl⟩
+
+theorem nameOf_missing {t1 t2 : NameTab} {f : Nat} (h : NameTab.has t1 f = false) :
+    nameOf (missingNames t1 t2) f = nameOf t2 f := by
+  unfold nameOf missingNames
+  induction t2 with
+  | nil => rfl
+  | cons p t2 ih =>
+    by_cases e : p.1 = f
+    · have hk : (!(NameTab.has t1 p.1)) = true := by rw [e, h]; rfl
+      have hb : (p.1 == f) = true := by simpa using e
+      simp only [List.filter_cons, hk, ↓reduceIte, List.find?_cons, hb]
+    · have hb : (p.1 == f) = false := by simpa using e
+      by_cases hk : (!(NameTab.has t1 p.1)) = true
+      · simp only [List.filter_cons, hk, ↓reduceIte, List.find?_cons, hb]; exact ih
+      · simp only [List.filter_cons, hk, Bool.false_eq_true, ↓reduceIte, List.find?_cons, hb]; exact ih
+
+/-- what `computeFlameGraphDiff` reads after `synchronizeNames`: the left tree's own name, else the right tree's -/
+theorem nameOf_syncNames {t1 t2 : NameTab} (u1 : (t1.map (·.1)).Nodup) (u2 : (t2.map (·.1)).Nodup) (f : Nat) :
+    nameOf (syncNames t1 t2) f = if NameTab.has t1 f then nameOf t1 f else nameOf t2 f := by
+  unfold syncNames
+  rw [syncNamesWith_fresh _ _ (missingNames_nodup u1 u2)]
+  cases h : NameTab.has t1 f with
+  | true => simp only [↓reduceIte]; exact nameOf_append_has h
+  | false =>
+    simp only [Bool.false_eq_true, ↓reduceIte]
+    rw [nameOf_append_not_has h, nameOf_missing h]
+
+/-- tables with unique ids and the same entries read the same -/
+theorem nameOf_perm {a b : NameTab} (ua : (a.map (·.1)).Nodup) (hp : a.Perm b) (f : Nat) : nameOf a f = nameOf b f := by
+  have ub : (b.map (·.1)).Nodup := (hp.map _).nodup_iff.mp ua
+  cases h : NameTab.has a f with
+  | true =>
+    obtain ⟨s, hs⟩ := has_iff_mem.mp h
+    rw [nameOf_eq_of_mem ua hs, nameOf_eq_of_mem ub (hp.subset hs)]
+  | false =>
+    have hb : NameTab.has b f = false := by
+      cases hb : NameTab.has b f with
+      | false => rfl
+      | true =>
+        obtain ⟨s, hs⟩ := has_iff_mem.mp hb
+        have := has_iff_mem.mpr ⟨s, hp.symm.subset hs⟩
+        rw [h] at this; exact absurd this (by simp)
+    rw [nameOf_not_has h, nameOf_not_has hb]
+
+/-- **the map iteration order of `synchronizeNames` does not matter** -/
+theorem nameOf_sync_order {t1 t2 add : NameTab} (u1 : (t1.map (·.1)).Nodup) (u2 : (t2.map (·.1)).Nodup)
+    (hp : add.Perm (missingNames t1 t2)) (f : Nat) :
+    nameOf (syncNamesWith t1 add) f = nameOf (syncNames t1 t2) f := by
+  have hnd := missingNames_nodup u1 u2
+  have hp' : (t1 ++ add).Perm (t1 ++ missingNames t1 t2) := List.Perm.append_left t1 hp
+  have hnd' : ((t1 ++ add).map (·.1)).Nodup := (hp'.map _).nodup_iff.mpr hnd
+  unfold syncNames
+  rw [syncNamesWith_fresh _ _ hnd', syncNamesWith_fresh _ _ hnd]
+  exact nameOf_perm hnd' hp' f
+
+/-- the two tables give a common id the same name (ids are `city.CH64` of the name) -/
+def NamesAgree (t1 t2 : NameTab) : Prop := ∀ f s s', (f, s) ∈ t1 → (f, s') ∈ t2 → s = s'
+
+/-- **which side lists a function does not matter**: swapping the trees gives every function the same name -/
+theorem nameOf_sync_comm {t1 t2 : NameTab} (u1 : (t1.map (·.1)).Nodup) (u2 : (t2.map (·.1)).Nodup)
+    (ha : NamesAgree t1 t2) (f : Nat) : nameOf (syncNames t1 t2) f = nameOf (syncNames t2 t1) f := by
+  rw [nameOf_syncNames u1 u2, nameOf_syncNames u2 u1]
+  cases h1 : NameTab.has t1 f <;> cases h2 : NameTab.has t2 f
+  · simp only [Bool.false_eq_true, ↓reduceIte]; rw [nameOf_not_has h1, nameOf_not_has h2]
+  · simp
+  · simp
+  · simp only [↓reduceIte]
+    obtain ⟨s, hs⟩ := has_iff_mem.mp h1
+    obtain ⟨s', hs'⟩ := has_iff_mem.mp h2
+    rw [nameOf_eq_of_mem u1 hs, nameOf_eq_of_mem u2 hs', ha f s s' hs hs']
 
 /-! ### delta encoding -/
 
